@@ -49,7 +49,7 @@ def load_registry():
         o.setdefault("fns", [])
         o.setdefault("attrs", [])
         o.setdefault("needs", [])
-        o.setdefault("timeout", 900)
+        o.setdefault("timeout", 1500)
         o.setdefault("desc", "")
         o.setdefault("trusted", [])
     return reg
